@@ -5,7 +5,7 @@ import re
 import bcrun
 import lib
 
-RULE = ("(a)+(b) state space = 39 opcode tables x 256 opcode numbers, 12 invariants of OpTables.tla per state (bijection, categorised opcodes "
+RULE = ("(a)+(b) state space = 39 opcode tables x 256 opcode numbers, 14 invariants of OpTables.tla per state (bijection, frozen decoder sets = published has* lists, categorised opcodes "
         "defined and operand-taking unless CPython has the same gap, jrel/jabs disjoint, EXTENDED_ARG and shift, and for the nine installed "
         "interpreters equality of names, HAVE_ARGUMENT/hasarg and the seven category sets with the live opcode module); (c) the recorded "
         "derivation of every table (init/def/rm/finalize events, hook H2) replayed on an abstract table by OpTablesTrace.tla; (d) every code "
